@@ -274,6 +274,9 @@ def r4_coercers(ctx):
             envs[c.args[1].value] = dotted(c.args[2])
         if dotted(c.func) == '_get_environb' and c.args and isinstance(c.args[0], ast.Constant):
             envs[c.args[0].value] = '_get_environb'
+        # ... or through the shared "read, ignore a missing key, store" helper: _validate_set(<reader>, <variable>, field=..)
+        if isinstance(c.func, ast.Attribute) and c.func.attr == '_validate_set' and len(c.args) >= 2 and isinstance(c.args[1], ast.Constant) and (len(c.args) < 3 or (isinstance(c.args[2], ast.Constant) and c.args[2].value is None)):
+            envs[c.args[1].value] = dotted(c.args[0])
     ctx.check(envs.get('REPLICAT_REPOSITORY') == 'parse_repository' and envs.get('REPLICAT_PASSWORD') == '_get_environb', 'C19.R4', f'{func_label(ae)}|env-coercers', loc(ae, ae.node), 'environment: REPLICAT_REPOSITORY -> parse_repository, REPLICAT_PASSWORD -> bytes', f'environment coercers changed: {envs}')
     # every source assignment in apply_env / apply_known is unconditional
     for f in (ae, ak, cm.classes['BaseBackendConfig'].methods.get('apply_env'), cm.classes['BaseBackendConfig'].methods.get('apply_known')):
@@ -497,7 +500,7 @@ def r8_sources_reach_the_command(ctx):
     C = cfgm.classes.get('Config')
     if C is None:
         raise AnalysisError('C19.R8: config.Config missing')
-    fields = [st.target.id for st in C.node.body if isinstance(st, ast.AnnAssign) and isinstance(st.target, ast.Name)]
+    fields = [st.target.id for st in C.node.body if isinstance(st, ast.AnnAssign) and isinstance(st.target, ast.Name) and not any(isinstance(x, ast.Name) and x.id == 'ClassVar' or isinstance(x, ast.Attribute) and x.attr == 'ClassVar' for x in ast.walk(st.annotation))]
     ctx.floor('C19.R8', 'fields of config.Config', len(fields), 5)
     mn = mainm.functions.get('main')
     read_directly = {a.attr for f in mainm.all_functions for a in ast.walk(f.node) if isinstance(a, ast.Attribute) and isinstance(a.value, ast.Name) and 'cfg' in a.value.id.lower() and isinstance(a.ctx, ast.Load)}
